@@ -35,6 +35,12 @@ fn count_faults(rep: &mut RunReport, out: &EvalOut, plan: &EvalPlan) {
         }
     };
     let injected = out.events.iter().filter(|(_, e)| matches!(e, Ev::Fail(_, FailWhy::Injected))).count() as u64;
+    if !plan.fail.is_empty() || !plan.fail_started.is_empty() {
+        *rep.probes.entry("failure_plans_drawn").or_insert(0) += 1;
+        if injected == 0 {
+            *rep.probes.entry("failure_plans_that_never_fired").or_insert(0) += 1;
+        }
+    }
     f("job_failure", injected);
     f(
         "consequent_failure_missing_input",
@@ -162,6 +168,7 @@ pub fn run_scenario(sc: &Scenario, opts: &RunOpts) -> RunReport {
     let mut rep = RunReport::default();
     let mut world = World::default();
     let mut nondet = false;
+    let mut tainted: BTreeSet<String> = BTreeSet::new();
     let prop = opts.prop.as_str();
     for (ri, round) in sc.rounds.iter().enumerate() {
         for e in round.edits.iter() {
@@ -174,13 +181,19 @@ pub fn run_scenario(sc: &Scenario, opts: &RunOpts) -> RunReport {
         let salt = ri as u64 + 1;
         let out = evaluate(&sc.cfg, &sc.defs, &mut world, &round.plan, salt);
         account(&mut rep, &out, &round.plan);
-        let ctx = OracleCtx { cfg: &sc.cfg, defs: &sc.defs, nondeterministic_outputs: nondet };
+        let ctx = OracleCtx { cfg: &sc.cfg, defs: &sc.defs, nondeterministic_outputs: nondet, tainted: Some(&tainted) };
         let mut vio = out.violations.clone();
         vio.extend(check_eval(&ctx, &out, &round.plan, &mut rep.probes));
         push(&mut rep, ri, vio);
         if out.engine_error.is_some() {
             *rep.discarded.entry("chain_cut_by_engine_error").or_insert(0) += 1;
             break;
+        }
+        for j in out.failed.iter().chain(out.contract_err.iter()).chain(out.running_at_abort.iter()) {
+            tainted.insert(out.gv.jobs[*j].id.clone());
+        }
+        for j in out.ok.keys() {
+            tainted.remove(&out.gv.jobs[*j].id);
         }
         match prop {
             "C07" => c07_twin(sc, &pre, &out, &round.plan, salt, ri, &mut rep),
@@ -445,13 +458,16 @@ fn c09_resume(sc: &Scenario, pre: &World, plan: &EvalPlan, salt: u64, ri: usize,
     }
     let mut r = Rng::new(hash2(plan.sched_seed, 0xC09));
     // failure subsets
-    let n_fail = if thorough { 3 } else { 2 };
+    let n_fail = if thorough { 6 } else { 3 };
+    let executed: Vec<usize> = u.started.iter().cloned().collect();
     for k in 0..n_fail {
         let mut ip = uplan.clone();
         let cnt = 1 + r.below(2.min(n));
         for _ in 0..cnt {
-            let d = u.gv.jobs[r.below(n)].def;
-            ip.fail.insert(d, *r.pick(&[Leave::Garbage, Leave::Untouched, Leave::Removed]));
+            // mostly jobs the uninterrupted evaluation executes (a failure plan for a job that is
+            // never started injects nothing)
+            let j = if !executed.is_empty() && r.chance(4, 5) { *r.pick(&executed) } else { r.below(n) };
+            ip.fail.insert(u.gv.jobs[j].def, *r.pick(&[Leave::Garbage, Leave::Untouched, Leave::Removed]));
         }
         if r.chance(1, 3) {
             ip.sched_seed = r.next_u64() >> 1;
@@ -508,7 +524,7 @@ fn c10_sweep(sc: &Scenario, pre: &World, plan: &EvalPlan, salt: u64, ri: usize, 
             let i = evaluate(&sc.cfg, &sc.defs, &mut wi, &ip, salt);
             account(rep, &i, &ip);
             *rep.faults.entry("abort_sweep_point").or_insert(0) += 1;
-            let ctx = OracleCtx { cfg: &sc.cfg, defs: &sc.defs, nondeterministic_outputs: true };
+            let ctx = OracleCtx { cfg: &sc.cfg, defs: &sc.defs, nondeterministic_outputs: true, tainted: None };
             let mut vio = i.violations.clone();
             vio.extend(check_eval(&ctx, &i, &ip, &mut rep.probes));
             // a fatal engine error during an abort sweep is a C10 matter when it happens at/after the abort
